@@ -51,3 +51,45 @@ def run_phases(ctx, phases):
         raise errs[0]
     for acc in accs:
         acc.apply(ctx)
+
+
+def replay_saved(ctx, path):
+    """./check <ID> --replay <path>: re-execute a saved failing case against the current tree.
+    A generated case carries the behaviour TLC emitted (inputs and TLC's expectations); it is stepped through amoco again
+    with the same replayer.  A sample case names the file; the caller re-runs the sample pipeline (TLC included) for it."""
+    import json
+    from . import c14, c14hex, c14pe, c14macho, c15
+    case = json.load(open(path)).get("case") or {}
+    if "behaviour" not in case:
+        return case.get("file")
+    c14.quiet()
+    name = case["replayer"]
+    beh = case["behaviour"]
+    if name == "c14.replay_elf":
+        fails = c14.replay_elf(beh)["fails"]
+    elif name == "c14hex.replay_stream":
+        fails = c14hex.replay_stream(beh)["fails"]
+    elif name == "c14pe.replay_pe":
+        fails = c14pe.replay_pe(beh)["fails"]
+    elif name == "c14macho.replay_macho":
+        fails = c14macho.replay_macho(beh)["fails"]
+    elif name == "c15.replay_elf":
+        fails = c15.replay_elf(beh)
+    elif name == "c15.replay_stream":
+        fails = c15.replay_stream(beh)[0]
+    elif name.startswith("c15.replay_image:"):
+        fails = c15.replay_image(beh, name.split(":")[1])
+    else:
+        raise ValueError("unknown replayer " + name)
+    seen = set()
+    for key, what in fails:
+        if key not in seen:
+            seen.add(key)
+            ctx.fail(key, "replayed case: " + what, case)
+    ctx.case(key=("replay", path))
+    ctx.trace(1)
+    ctx.sample({"replayed": path, "replayer": name, "failures": sorted(seen)})
+    ctx.states = ctx.states or 1
+    ctx.transitions = ctx.transitions or 1
+    ctx.rule = "re-execution of one saved case (behaviour generated and annotated by TLC in an earlier run)"
+    return None
